@@ -16,12 +16,13 @@ BOUNDS = {
 ASSUMPTIONS = ["index lists are static configuration (enumerated), parameter values and evaluation points are decided by the solver"]
 
 
-def cond_case(D, R, b_idx, a_idx=None, semi=(), timeout=400):
+def cond_case(D, R, b_idx, a_idx=None, semi=(), timeout=400, before=()):
+    """before: index lists for which condition_on is called on the SAME density object first (results discarded)"""
     explicit = a_idx is not None
     a_sorted = sorted(set(range(D)) - set(b_idx))
     a = list(a_idx) if explicit else a_sorted
-    cid = f"C06/{'condition_on_explicit' if explicit else 'condition_on'}/D{D}R{R}/b{''.join(map(str, b_idx))}" + (f"a{''.join(map(str, a))}" if explicit else "") + ("/semi-" + "-".join(semi) if semi else "")
-    cfg = dict(op="condition_on_explicit" if explicit else "condition_on", D=D, R=R, b=list(b_idx), a=a, concrete_blocks=list(semi))
+    cid = f"C06/{'condition_on_explicit' if explicit else 'condition_on'}/D{D}R{R}/b{''.join(map(str, b_idx))}" + (f"a{''.join(map(str, a))}" if explicit else "") + ("/semi-" + "-".join(semi) if semi else "") + ("/after-" + "-".join("".join(map(str, q)) for q in before) if before else "")
+    cfg = dict(op="condition_on_explicit" if explicit else "condition_on", D=D, R=R, b=list(b_idx), a=a, concrete_blocks=list(semi), earlier_calls_on_the_same_object=[list(q) for q in before])
     Da, Db = len(a), len(b_idx)
     NP = 2      # evaluation points: cond(x_b) returns R*NP components laid out r*NP+n
 
@@ -37,6 +38,8 @@ def cond_case(D, R, b_idx, a_idx=None, semi=(), timeout=400):
         factor, measure, pdf, conditional = gt()
         p = pdf.GaussianPDF(Sigma=A["S"], mu=A["mu"])
         bi = jnp.array(b_idx); ai = jnp.array(a)
+        for q in before:
+            p.condition_on(jnp.array(list(q))); p.get_marginal(jnp.array(list(q)))
         c = p.condition_on_explicit(bi, ai) if explicit else p.condition_on(bi)
         x = A["x"]
         xa, xb = x[:, ai], x[:, bi]
@@ -97,6 +100,11 @@ def cases(tier, seed=0):
     out.append(cond_case(5, 1, [4, 1], a_idx=[3, 0, 2], semi=("S",), timeout=900))
     out.append(cond_case(5, 2, [2], a_idx=[4, 0, 3, 1], semi=("S",), timeout=900))
     out.append(cond_case(4, 2, [3, 0], semi=("S",), timeout=900))
+    # the same index set requested twice from one object, in different orders (and other sets in between)
+    out.append(cond_case(3, 2, [2, 0], before=([0, 2],), timeout=600))
+    out.append(cond_case(3, 1, [1, 0], before=([0, 1], [2]), timeout=600))
+    out.append(cond_case(4, 2, [3, 1], semi=("S",), before=([1, 3], [0]), timeout=900))
+    out.append(cond_case(3, 1, [0, 2], a_idx=[1], before=([2, 0],), timeout=600))
     if tier == "thorough":
         for b in ([0], [3, 1], [2, 0, 3], [1, 3], [3], [0, 2, 1]):
             out.append(cond_case(4, 2, b, semi=("S",), timeout=1500))
